@@ -1,4 +1,552 @@
 import LunaVerif.Model.Periph.SpiDevice
+/-!
+# C50 — The SPI device exchanges whole words for every word size
+
+"While chip select is active, the device assembles every word_size consecutive sample edges into
+one received word (in the configured bit order) and reports it once, for every word of the
+transaction and for any word size; in modes where data changes on the leading edge it returns the
+bits of the word presented for transmission, most significant bit first."
+
+The specification is the machine `Spec` below, which is a function of the *pin history only*: it
+remembers the previous serial-clock level (to know what an edge is), the bits sampled so far in the
+current word, the word that was presented on `word_out` when the current word started, and the
+number of output edges since then.  A word is emitted exactly when the `word_size`-th sample edge
+of a word arrives while selected; deselecting discards the partial word.
+
+The model is that of the REPAIRED gateware; `unrepaired_code_misframes` is a witness that the
+code before the fix violates the statement (word size 3, second word of a transaction).
+-/
 namespace LunaVerif.SpiDevice
-theorem stub_c50 : True := trivial
+
+structure Spec where
+  past    : Bool
+  pending : List Bool     -- bits sampled in the current word, oldest first
+  latched : List Bool     -- word presented for transmission when the current word started
+  nOut    : Nat           -- output edges since then
+deriving Repr
+
+def specInit (c : Config) : Spec := ⟨false, [], zeros c.w, 0⟩
+
+/-- Register image of `word_size` bits in arrival order (index 0 = bit 0): MSB first means the
+first bit to arrive is the most significant one. -/
+def encode (c : Config) (bits : List Bool) : List Bool := if c.msbFirst then bits.reverse else bits
+
+def specStep (c : Config) (g : Spec) (i : In) : Spec × Option (List Bool) :=
+  if selected c i then
+    if sampleEdge c g.past i then
+      if g.pending.length + 1 = c.w then
+        (⟨serialClock c i, [], i.wordOut, 0⟩, some (encode c (g.pending ++ [i.sdi])))
+      else
+        ({ g with past := serialClock c i, pending := g.pending ++ [i.sdi] }, none)
+    else
+      ({ g with past := serialClock c i, nOut := if outputEdge c g.past i then g.nOut + 1 else g.nOut }, none)
+  else
+    (⟨serialClock c i, [], i.wordOut, 0⟩, none)
+
+/-- The words the specification emits over a history. -/
+def specRun (c : Config) : Spec → List In → List (List Bool)
+  | _, [] => []
+  | g, i :: is =>
+    match (specStep c g i).2 with
+    | some wd => wd :: specRun c (specStep c g i).1 is
+    | none => specRun c (specStep c g i).1 is
+
+def specAfter (c : Config) : Spec → List In → Spec
+  | g, [] => g
+  | g, i :: is => specAfter c (specStep c g i).1 is
+
+def stateAfter (c : Config) : State → List In → State
+  | s, [] => s
+  | s, i :: is => stateAfter c (step c s i).1 is
+
+/-- What the application sees: the values of `word_in` in the cycles where `word_complete` is high. -/
+def reports : List Out → List (List Bool)
+  | [] => []
+  | o :: os => if o.wordComplete then o.wordIn :: reports os else reports os
+
+/-! ## transmit shift register as a function of the number of shifts -/
+
+def iter (f : List Bool → List Bool) : Nat → List Bool → List Bool
+  | 0, l => l
+  | n + 1, l => f (iter f n l)
+
+theorem shiftTx_length (c : Config) (l : List Bool) : (shiftTx c l).length = l.length := by
+  unfold shiftTx
+  split
+  · cases l with
+    | nil => rfl
+    | cons b t => simp [List.length_dropLast]
+  · cases h : l.getLast? with
+    | none => simp [List.getLast?_eq_none_iff] at h; simp [h]
+    | some x =>
+      cases l with
+      | nil => simp at h
+      | cons b t => simp
+
+theorem iter_length (c : Config) (n : Nat) (l : List Bool) : (iter (shiftTx c) n l).length = l.length := by
+  induction n with
+  | zero => rfl
+  | succ n ih => simp [iter, shiftTx_length, ih]
+
+theorem shiftTx_msb_get (c : Config) (hm : c.msbFirst = true) (l : List Bool) (i : Nat) (hi : i < l.length) :
+    (shiftTx c l)[i]? = l[i - 1]? := by
+  unfold shiftTx
+  simp only [hm, if_true]
+  cases l with
+  | nil => simp at hi
+  | cons b t =>
+    cases i with
+    | zero => simp
+    | succ k =>
+      simp only [List.getElem?_cons_succ, Nat.add_sub_cancel]
+      rw [List.dropLast_eq_take, List.getElem?_take]
+      simp at hi ⊢
+      omega
+
+theorem shiftTx_lsb_get (c : Config) (hm : c.msbFirst = false) (l : List Bool) (i : Nat) (hi : i < l.length) :
+    (shiftTx c l)[i]? = l[min (i + 1) (l.length - 1)]? := by
+  unfold shiftTx
+  simp only [hm]
+  cases l with
+  | nil => simp at hi
+  | cons b t =>
+    have hne : (b :: t) ≠ [] := by simp
+    rw [List.getLast?_eq_some_getLast hne]
+    simp only [Bool.false_eq_true, if_false, List.tail_cons]
+    simp only [List.length_cons] at hi ⊢
+    by_cases h : i < t.length
+    · rw [List.getElem?_append_left h]
+      have : min (i + 1) (t.length + 1 - 1) = i + 1 := by omega
+      rw [this]; simp
+    · have hi' : i = t.length := by omega
+      subst hi'
+      rw [List.getElem?_append_right (Nat.le_refl _)]
+      have : min (t.length + 1) (t.length + 1 - 1) = t.length := by omega
+      rw [this]
+      simp [List.getLast_eq_getElem]
+
+theorem iter_msb_get (c : Config) (hm : c.msbFirst = true) (l : List Bool) (n i : Nat) (hi : i < l.length) :
+    (iter (shiftTx c) n l)[i]? = l[i - n]? := by
+  induction n generalizing i with
+  | zero => rfl
+  | succ n ih =>
+    simp only [iter]
+    rw [shiftTx_msb_get c hm _ _ (by rw [iter_length]; exact hi)]
+    rw [ih (i - 1) (by omega)]
+    congr 1
+    omega
+
+theorem iter_lsb_get (c : Config) (hm : c.msbFirst = false) (l : List Bool) (n i : Nat) (hi : i < l.length) :
+    (iter (shiftTx c) n l)[i]? = l[min (i + n) (l.length - 1)]? := by
+  induction n generalizing i with
+  | zero =>
+    simp only [iter, Nat.add_zero]
+    congr 1; omega
+  | succ n ih =>
+    simp only [iter]
+    rw [shiftTx_lsb_get c hm _ _ (by rw [iter_length]; exact hi)]
+    rw [iter_length]
+    rw [ih _ (by omega)]
+    congr 1
+    omega
+
+/-- The bit put on `sdo` by the `n`-th output edge after the word `l` was latched. -/
+def sdoBit (c : Config) (l : List Bool) (n : Nat) : Option Bool :=
+  if c.msbFirst then l[l.length - n]? else l[min (n - 1) (l.length - 1)]?
+
+theorem shiftOutBit_iter (c : Config) (l : List Bool) (hl : 1 ≤ l.length) (n : Nat) (hn : 1 ≤ n) :
+    some (shiftOutBit c (iter (shiftTx c) (n - 1) l)) = sdoBit c l n := by
+  unfold shiftOutBit sdoBit
+  cases hm : c.msbFirst
+  · simp only [Bool.false_eq_true, if_false]
+    have h0 := iter_lsb_get c hm l (n - 1) 0 (by omega)
+    rw [Nat.zero_add] at h0
+    rw [← h0]
+    have hlen := iter_length c (n - 1) l
+    cases hh : iter (shiftTx c) (n - 1) l with
+    | nil => rw [hh] at hlen; simp at hlen; omega
+    | cons a t => simp
+  · simp only [if_true]
+    have h0 := iter_msb_get c hm l (n - 1) (l.length - 1) (by omega)
+    have : l.length - 1 - (n - 1) = l.length - n := by omega
+    rw [this] at h0
+    rw [← h0]
+    have hlen := iter_length c (n - 1) l
+    rw [List.getLast?_eq_getElem?, hlen]
+    cases hh : (iter (shiftTx c) (n - 1) l)[l.length - 1]? with
+    | none =>
+      rw [List.getElem?_eq_none_iff] at hh
+      omega
+    | some x => simp
+
+/-! ## the invariant tying the gateware model to the specification machine -/
+
+structure Rel (c : Config) (g : Spec) (s : State) : Prop where
+  past    : s.pastClk = g.past
+  count   : s.bitCount = g.pending.length
+  lt      : g.pending.length < c.w
+  rxLen   : s.rx.length = c.w
+  rxMsb   : c.msbFirst = true → s.rx.take g.pending.length = g.pending.reverse
+  rxLsb   : c.msbFirst = false → s.rx.drop (c.w - g.pending.length) = g.pending
+  latLen  : g.latched.length = c.w
+  tx      : s.tx = iter (shiftTx c) g.nOut g.latched
+  sdo     : 1 ≤ g.nOut → s.sdo = shiftOutBit c (iter (shiftTx c) (g.nOut - 1) g.latched)
+
+theorem rel_init (c : Config) (hw : 1 ≤ c.w) : Rel c (specInit c) (init c) := by
+  constructor <;> simp [specInit, init, zeros, iter] <;> omega
+
+theorem edges_exclusive (c : Config) (p : Bool) (i : In) :
+    sampleEdge c p i = true → outputEdge c p i = false := by
+  unfold sampleEdge outputEdge leading trailing
+  cases c.phase <;> cases p <;> cases serialClock c i <;> simp
+
+theorem bc_wrap (w n : Nat) (h : n + 1 < w) : (n + 1) % 2 ^ bcWidth w = n + 1 := by
+  apply Nat.mod_eq_of_lt
+  unfold bcWidth
+  have h1 : ¬ w ≤ 1 := by omega
+  simp only [h1, if_false]
+  have := @Nat.lt_log2_self (w - 1)
+  omega
+
+theorem shiftRx_length (c : Config) (rx : List Bool) (b : Bool) (h : 1 ≤ rx.length) :
+    (shiftRx c rx b).length = rx.length := by
+  unfold shiftRx
+  split <;> simp <;> omega
+
+theorem shiftRx_msb (c : Config) (hm : c.msbFirst = true) (rx p : List Bool) (b : Bool)
+    (hlt : p.length < rx.length) (h : rx.take p.length = p.reverse) :
+    (shiftRx c rx b).take (p.length + 1) = (p ++ [b]).reverse := by
+  unfold shiftRx
+  simp only [hm, if_true, List.take_succ_cons, List.reverse_append, List.reverse_cons, List.reverse_nil,
+    List.nil_append, List.singleton_append]
+  congr 1
+  rw [List.dropLast_eq_take, List.take_take, ← h]
+  congr 1
+  omega
+
+theorem shiftRx_lsb (c : Config) (hm : c.msbFirst = false) (rx p : List Bool) (b : Bool)
+    (hlt : p.length < rx.length) (h : rx.drop (rx.length - p.length) = p) :
+    (shiftRx c rx b).drop (rx.length - (p.length + 1)) = p ++ [b] := by
+  unfold shiftRx
+  simp only [hm, Bool.false_eq_true, if_false]
+  rw [List.drop_append_of_le_length (by simp; omega)]
+  congr 1
+  have : (rx.tail).drop (rx.length - (p.length + 1)) = rx.drop (rx.length - p.length) := by
+    rw [← List.drop_one, List.drop_drop]
+    congr 1
+    omega
+  rw [this, h]
+
+/-- One clock cycle preserves the invariant, and the two pipeline registers behind the shift
+register behave as: `word_complete' = word_accepted`, `word_in' = rx` when accepted, and a word is
+accepted exactly when the specification emits one, with `rx'` equal to that word. -/
+theorem step_rel (c : Config) (g : Spec) (s : State) (i : In) (hout : i.wordOut.length = c.w)
+    (r : Rel c g s) :
+    Rel c (specStep c g i).1 (step c s i).1 ∧
+    (step c s i).1.wordComplete = s.wordAccepted ∧
+    (step c s i).1.wordIn = (if s.wordAccepted then s.rx else s.wordIn) ∧
+    (step c s i).1.wordAccepted = (specStep c g i).2.isSome ∧
+    (∀ wd, (specStep c g i).2 = some wd → (step c s i).1.rx = wd) := by
+  obtain ⟨hpast, hcount, hlt, hrxLen, hrxMsb, hrxLsb, hlatLen, htx, hsdo⟩ := r
+  unfold step stepGen specStep
+  simp only [hpast, hcount]
+  by_cases hsel : selected c i = true
+  · simp only [hsel, if_true]
+    by_cases hsmp : sampleEdge c g.past i = true
+    · have hoe := edges_exclusive c g.past i hsmp
+      simp only [hsmp, hoe, if_true, Bool.false_eq_true, if_false, Bool.true_and]
+      by_cases hcomp : g.pending.length + 1 = c.w
+      · have hb : (g.pending.length + 1 == c.w) = true := by simp [hcomp]
+        simp only [hcomp, if_true]
+        have hrx' : shiftRx c s.rx i.sdi = encode c (g.pending ++ [i.sdi]) := by
+          unfold encode
+          cases hm : c.msbFirst
+          · have := shiftRx_lsb c hm s.rx g.pending i.sdi (by omega) (by rw [hrxLen]; exact hrxLsb hm)
+            rw [hrxLen, ← hcomp] at this
+            simpa using this
+          · have := shiftRx_msb c hm s.rx g.pending i.sdi (by omega) (hrxMsb hm)
+            rw [hcomp, ← hrxLen, ← shiftRx_length c s.rx i.sdi (by omega), List.take_length] at this
+            simpa using this
+        refine ⟨?_, by simp, by simp, by simp, ?_⟩
+        · constructor <;> simp [iter, hout] <;> first | omega | (rw [shiftRx_length] <;> omega)
+        · intro wd h; simp at h; rw [← h]; exact hrx'
+      · have hb : (g.pending.length + 1 == c.w) = false := by simp [hcomp]
+        simp only [hb, hcomp, if_false, Bool.false_eq_true]
+        refine ⟨?_, by simp, by simp, by simp, ?_⟩
+        · constructor
+          · rfl
+          · simp [bc_wrap c.w g.pending.length (by omega)]
+          · simp; omega
+          · simp; rw [shiftRx_length] <;> omega
+          · intro hm
+            have := shiftRx_msb c hm s.rx g.pending i.sdi (by omega) (hrxMsb hm)
+            simpa using this
+          · intro hm
+            have := shiftRx_lsb c hm s.rx g.pending i.sdi (by omega) (by rw [hrxLen]; exact hrxLsb hm)
+            rw [hrxLen] at this
+            simpa using this
+          · exact hlatLen
+          · exact htx
+          · exact hsdo
+        · intro wd h; simp at h
+    · simp only [hsmp, Bool.false_eq_true, if_false]
+      by_cases hoe : outputEdge c g.past i = true
+      · simp only [hoe, if_true]
+        refine ⟨?_, by simp, by simp, by simp, ?_⟩
+        · constructor
+          · rfl
+          · rfl
+          · exact hlt
+          · exact hrxLen
+          · exact hrxMsb
+          · exact hrxLsb
+          · exact hlatLen
+          · simp [iter, htx]
+          · intro _; simp [htx]
+        · intro wd h; simp at h
+      · simp only [hoe, Bool.false_eq_true, if_false]
+        refine ⟨?_, by simp, by simp, by simp, ?_⟩
+        · exact ⟨rfl, rfl, hlt, hrxLen, hrxMsb, hrxLsb, hlatLen, htx, hsdo⟩
+        · intro wd h; simp at h
+  · simp only [hsel, Bool.false_eq_true, if_false]
+    refine ⟨?_, by simp, by simp, by simp, ?_⟩
+    · constructor <;> simp [iter, hout, hrxLen] <;> omega
+    · intro wd h; simp at h
+
+/-! ## the theorems -/
+
+theorem step_wc (c : Config) (s : State) (i : In) : (step c s i).1.wordComplete = s.wordAccepted := by
+  simp only [step, stepGen]
+  split <;> (try split) <;> (try split) <;> rfl
+
+theorem step_wi (c : Config) (s : State) (i : In) :
+    (step c s i).1.wordIn = (if s.wordAccepted then s.rx else s.wordIn) := by
+  simp only [step, stepGen]
+  split <;> (try split) <;> (try split) <;> rfl
+
+/-- Generalised form: from related states, the reports over `h` followed by two more cycles (the
+depth of the `word_accepted → word_complete` pipeline) are the words still in the pipeline followed
+by the words of the specification. -/
+theorem reports_from (c : Config) (h : List In) (x y : In) :
+    ∀ (g : Spec) (s : State), Rel c g s → (∀ i ∈ h, i.wordOut.length = c.w) →
+    reports (run c s (h ++ [x, y])) =
+      (if s.wordComplete then [s.wordIn] else []) ++ (if s.wordAccepted then [s.rx] else []) ++
+      specRun c g h := by
+  induction h with
+  | nil =>
+    intro g s _ _
+    have ho : ∀ (s : State) (i : In), (step c s i).2 = outOf s := fun _ _ => rfl
+    simp only [List.nil_append, run, reports, ho, outOf, specRun, List.append_nil, step_wc, step_wi]
+    cases s.wordComplete <;> cases s.wordAccepted <;> simp
+  | cons i is ih =>
+    intro g s r hlen
+    have hi : i.wordOut.length = c.w := hlen i (by simp)
+    obtain ⟨r', hwc, hwi, hwa, hrx⟩ := step_rel c g s i hi r
+    have ih' := ih (specStep c g i).1 (step c s i).1 r' (fun j hj => hlen j (by simp [hj]))
+    simp only [List.cons_append, run, reports, specRun]
+    have ho : (step c s i).2 = outOf s := rfl
+    rw [ih', hwc, hwi, hwa, ho]
+    simp only [outOf]
+    cases hev : (specStep c g i).2 with
+    | none => by_cases h1 : s.wordComplete = true <;> by_cases h2 : s.wordAccepted = true <;> simp [h1, h2]
+    | some wd =>
+      rw [hrx wd hev]
+      by_cases h1 : s.wordComplete = true <;> by_cases h2 : s.wordAccepted = true <;> simp [h1, h2]
+
+/-- **C50 (receive)** — for every word size ≥ 1, every clock polarity / phase, bit order and chip
+select polarity, and EVERY pin history `h` from reset: the words reported by the device
+(`word_in` in the cycles where `word_complete` is high; the two trailing cycles `x y` flush the
+report pipeline) are exactly the words of the specification: every `word_size` consecutive sample
+edges inside a chip-select window form one word, in order, each once, nothing else. -/
+theorem every_word_reported_once (c : Config) (hw : 1 ≤ c.w) (h : List In) (x y : In)
+    (hlen : ∀ i ∈ h, i.wordOut.length = c.w) :
+    reports (run c (init c) (h ++ [x, y])) = specRun c (specInit c) h := by
+  rw [reports_from c h x y (specInit c) (init c) (rel_init c hw) hlen]
+  simp [init]
+
+theorem rel_after (c : Config) (h : List In) :
+    ∀ (g : Spec) (s : State), Rel c g s → (∀ i ∈ h, i.wordOut.length = c.w) →
+    Rel c (specAfter c g h) (stateAfter c s h) := by
+  induction h with
+  | nil => intro g s r _; exact r
+  | cons i is ih =>
+    intro g s r hlen
+    exact ih _ _ (step_rel c g s i (hlen i (by simp)) r).1 (fun j hj => hlen j (by simp [hj]))
+
+/-- **C50 (transmit)** — after ANY pin history from reset, if `n ≥ 1` output edges have occurred
+since the current word started (chip select asserted / previous word completed, when `word_out`
+was latched as `latched`), the `sdo` register holds bit `word_size - n` of the latched word when
+MSB first (bit `n - 1` when LSB first): the word is returned most significant bit first. -/
+theorem sdo_msb_first (c : Config) (hw : 1 ≤ c.w) (h : List In)
+    (hlen : ∀ i ∈ h, i.wordOut.length = c.w) :
+    let g := specAfter c (specInit c) h
+    let s := stateAfter c (init c) h
+    1 ≤ g.nOut → some s.sdo = sdoBit c g.latched g.nOut := by
+  intro g s hn
+  have r := rel_after c h (specInit c) (init c) (rel_init c hw) hlen
+  rw [r.sdo hn]
+  exact shiftOutBit_iter c g.latched (by rw [r.latLen]; exact hw) g.nOut hn
+
+/-- A transaction is *clean* when output edges and sample edges alternate starting with an output
+edge, i.e. chip select was asserted while the serial clock idled.  (Phase-1 modes.) -/
+def Clean (g : Spec) : Prop := g.nOut = g.pending.length + (if g.past then 1 else 0)
+
+theorem clean_established (c : Config) (g : Spec) (i : In)
+    (hsel : selected c i = false) (hidle : serialClock c i = false) : Clean (specStep c g i).1 := by
+  simp [specStep, hsel, hidle, Clean]
+
+theorem clean_preserved (c : Config) (hp : c.phase = true) (g : Spec) (i : In)
+    (hsel : selected c i = true) (hc : Clean g) : Clean (specStep c g i).1 := by
+  unfold Clean at *
+  unfold specStep sampleEdge outputEdge leading trailing
+  simp only [hsel, hp, if_true]
+  cases hpast : g.past <;> cases hsc : serialClock c i <;> simp [hpast] at hc ⊢ <;>
+    (try split) <;> simp_all <;> omega
+
+/-- **C50 (transmit, what the controller samples)** — phase-1 modes, clean transaction: in the
+cycle of the `k`-th sample edge of a word (`k` = bits already sampled, counted from 0) the `sdo`
+output carries bit `word_size-1-k` of the presented word (MSB first; bit `k` when LSB first). -/
+theorem sdo_bit_at_sample_edge (c : Config) (hw : 1 ≤ c.w) (hp : c.phase = true) (h : List In)
+    (hlen : ∀ i ∈ h, i.wordOut.length = c.w) (i : In) :
+    let g := specAfter c (specInit c) h
+    let s := stateAfter c (init c) h
+    Clean g → sampleEdge c g.past i = true →
+    some (step c s i).2.sdo =
+      (if c.msbFirst then g.latched[c.w - 1 - g.pending.length]? else g.latched[g.pending.length]?) := by
+  intro g s hc hs
+  have r : Rel c g s := rel_after c h (specInit c) (init c) (rel_init c hw) hlen
+  have hsd : 1 ≤ g.nOut → some s.sdo = sdoBit c g.latched g.nOut := sdo_msb_first c hw h hlen
+  clear_value g s
+  have hpast : g.past = true := by
+    unfold sampleEdge trailing at hs
+    simp [hp] at hs
+    exact hs.1
+  unfold Clean at hc
+  simp only [hpast, if_true] at hc
+  show some s.sdo = _
+  rw [hsd (by omega)]
+  unfold sdoBit
+  have hl := r.latLen
+  have hlt := r.lt
+  rw [hl, hc]
+  cases c.msbFirst
+  · simp only [Bool.false_eq_true, if_false]; congr 1; omega
+  · simp only [if_true]; congr 1; omega
+
+/-! ## the words are the consecutive `word_size`-bit chunks of the sampled stream -/
+
+/-- Streaming chunker: `p` = bits of the unfinished chunk. -/
+def chunkFrom (w : Nat) : List Bool → List Bool → List (List Bool)
+  | _, [] => []
+  | p, b :: bs => if p.length + 1 = w then (p ++ [b]) :: chunkFrom w [] bs else chunkFrom w (p ++ [b]) bs
+
+/-- The bits sampled during a history in which chip select stays asserted. -/
+def sampledBits (c : Config) : Bool → List In → List Bool
+  | _, [] => []
+  | p, i :: is =>
+    if sampleEdge c p i then i.sdi :: sampledBits c (serialClock c i) is else sampledBits c (serialClock c i) is
+
+theorem specRun_selected (c : Config) (h : List In) :
+    ∀ (g : Spec), (∀ i ∈ h, selected c i = true) →
+    specRun c g h = (chunkFrom c.w g.pending (sampledBits c g.past h)).map (encode c) := by
+  induction h with
+  | nil => intro g _; rfl
+  | cons i is ih =>
+    intro g hs
+    have hsel := hs i (by simp)
+    have ih' := fun g' => ih g' (fun j hj => hs j (by simp [hj]))
+    simp only [specRun, sampledBits, specStep, hsel, if_true]
+    by_cases hsmp : sampleEdge c g.past i = true
+    · simp only [hsmp, if_true, chunkFrom]
+      by_cases hcomp : g.pending.length + 1 = c.w
+      · simp only [hcomp, if_true, List.map_cons]
+        rw [ih']
+      · simp only [hcomp, if_false]
+        rw [ih']
+    · simp only [hsmp, Bool.false_eq_true, if_false]
+      rw [ih']
+
+
+theorem chunkFrom_eq (w : Nat) (hw : 1 ≤ w) (bits : List Bool) :
+    ∀ p : List Bool, p.length < w →
+    chunkFrom w p bits =
+      (List.range ((p.length + bits.length) / w)).map (fun k => ((p ++ bits).drop (k * w)).take w) := by
+  induction bits with
+  | nil =>
+    intro p hp
+    simp [chunkFrom, Nat.div_eq_of_lt hp]
+  | cons b bs ih =>
+    intro p hp
+    simp only [chunkFrom]
+    have happ : p ++ b :: bs = (p ++ [b]) ++ bs := by simp
+    by_cases hc : p.length + 1 = w
+    · simp only [hc, if_true]
+      have hpb : (p ++ [b]).length = w := by simp; omega
+      have hdiv : (p.length + (b :: bs).length) / w = bs.length / w + 1 := by
+        simp only [List.length_cons]
+        have : p.length + (bs.length + 1) = bs.length + w := by omega
+        rw [this, Nat.add_div_right _ (by omega)]
+      rw [hdiv, List.range_succ_eq_map, List.map_cons, List.map_map, happ]
+      congr 1
+      · simp only [Nat.zero_mul, List.drop_zero]
+        rw [List.take_append_of_le_length (by omega), ← hpb, List.take_length]
+      · rw [ih [] (by simp; omega)]
+        simp only [List.length_nil, Nat.zero_add, List.nil_append]
+        apply List.map_congr_left
+        intro k _
+        simp only [Function.comp]
+        have : (k + 1) * w = (p ++ [b]).length + k * w := by rw [hpb, Nat.succ_mul]; omega
+        rw [this, List.drop_append]
+        rw [List.drop_eq_nil_of_le (Nat.le_add_right _ _), Nat.add_sub_cancel_left, List.nil_append]
+    · simp only [hc, if_false]
+      rw [ih (p ++ [b]) (by simp; omega), ← happ]
+      have : (p ++ [b]).length + bs.length = p.length + (b :: bs).length := by simp; omega
+      rw [this]
+
+/-- **C50 (receive, chunk form)** — within one chip-select window that starts at a word boundary,
+word `k` reported is made of bits `[k·w, (k+1)·w)` of the stream of bits sampled in that window
+(`encode` puts them into the configured bit order); a trailing partial word is never reported. -/
+theorem words_are_consecutive_chunks (c : Config) (hw : 1 ≤ c.w) (h : List In)
+    (hsel : ∀ i ∈ h, selected c i = true) (past : Bool) (latched : List Bool) (n : Nat) :
+    specRun c ⟨past, [], latched, n⟩ h =
+      (List.range ((sampledBits c past h).length / c.w)).map
+        (fun k => encode c (((sampledBits c past h).drop (k * c.w)).take c.w)) := by
+  rw [specRun_selected c h _ hsel]
+  simp only
+  rw [chunkFrom_eq c.w hw _ [] (by simp; omega)]
+  simp [List.map_map, Function.comp_def]
+
+/-! ## concrete instances: non-vacuity, and the witness against the unrepaired code -/
+
+/-- word size 3 (not a power of two), mode 0, MSB first -/
+def cfg3 : Config := ⟨3, false, false, true, false⟩
+
+/-- one clock pulse carrying bit `b`, chip select asserted -/
+def pulse (b : Bool) : List In := [⟨false, b, true, [true, false, true]⟩, ⟨true, b, true, [true, false, true]⟩]
+def idleIn : In := ⟨false, false, false, [false, false, false]⟩
+
+/-- six bits 1,1,0, 0,1,0 in one transaction = words 6 and 2 -/
+def hist6 : List In := pulse true ++ pulse true ++ pulse false ++ pulse false ++ pulse true ++ pulse false
+
+example : specRun cfg3 (specInit cfg3) hist6 = [[false, true, true], [false, true, false]] := by decide +kernel
+example : reports (run cfg3 (init cfg3) (hist6 ++ [idleIn, idleIn])) = [[false, true, true], [false, true, false]] := by
+  decide +kernel
+example : ∀ i ∈ hist6, i.wordOut.length = cfg3.w := by decide
+
+/-- The code before the fix does NOT satisfy `every_word_reported_once`: with a 3-bit word the
+counter is 2 bits wide and runs 0,1,2,3,0,… so the second word of a transaction is not reported
+after 3 further sample edges. -/
+theorem unrepaired_code_misframes :
+    ∃ (c : Config) (h : List In) (x y : In), 1 ≤ c.w ∧ (∀ i ∈ h, i.wordOut.length = c.w) ∧
+      reports (runBroken c (init c) (h ++ [x, y])) ≠ specRun c (specInit c) h :=
+  ⟨cfg3, hist6, idleIn, idleIn, by decide, by decide, by decide +kernel⟩
+
+/-- the transmit side on the same kind of stimulus, phase 1: the first output edge presents the MSB -/
+example : (stateAfter ⟨3, false, true, true, false⟩ (init ⟨3, false, true, true, false⟩)
+    [⟨false, false, false, [true, false, false]⟩, ⟨true, false, true, [false, false, false]⟩]).sdo = false := by
+  decide +kernel
+example : (stateAfter ⟨3, false, true, true, false⟩ (init ⟨3, false, true, true, false⟩)
+    [⟨false, false, false, [false, false, true]⟩, ⟨true, false, true, [false, false, false]⟩]).sdo = true := by
+  decide +kernel
+
 end LunaVerif.SpiDevice
